@@ -135,6 +135,9 @@ func quoteOK(quote, lineText string) bool {
 			if quote == cut+"..." && (utf8.RuneStart(lineText[end]) || !utf8.ValidString(lineText)) {
 				return true // a line of valid UTF-8 is never cut inside a character
 			}
+			if cut == "" && quote == lineText[:end]+"..." {
+				return true // blanks only: trimmed or untouched, as for short lines
+			}
 		}
 	}
 	return false
